@@ -87,6 +87,118 @@ Proof.
   unfold run_drive in H. eapply drive_written_iff; eauto.
 Qed.
 
+(* ---------- the interrupt information of a run is faithful at every nesting level ----------
+   [paired F g i c]: the interrupt information [i] and the checkpoint [c] of a segment of graph [g]
+   belong together: [i] reports every interrupt-before node of [g] pending in [c]; the nested
+   informations of [i] and the nested checkpoints of [c] are listed under the same keys, each key is a
+   graph node of [g], and the pair found under it belongs together in the same sense for the nested
+   graph. *)
+Definition un_info (ni : ninfo) : inf := match ni with NInfo i => i end.
+Definition un_cp (nc : ncp) : cpt := match nc with NCP c => c end.
+
+Inductive paired (F : list gspec) : gspec -> inf -> cpt -> Prop :=
+| paired_intro : forall g i c,
+    reports_pending (gs_before g) i c ->
+    Forall2 (fun (ki : N * ninfo) (kc : N * ncp) =>
+               fst ki = fst kc /\
+               exists n j sub, find_node (gs_graph g) (fst kc) = Some n /\ n_kind n = KSub j /\
+                               nth_error F j = Some sub /\ paired F sub (un_info (snd ki)) (un_cp (snd kc)))
+            (ii_subs i) (cp_subs c) ->
+    paired F g i c.
+
+Definition sub_ok (F : list gspec) (g : gspec) (k : N) (cp : ncp) (info : ninfo) : Prop :=
+  exists n j sub, find_node (gs_graph g) k = Some n /\ n_kind n = KSub j /\
+                  nth_error F j = Some sub /\ paired F sub (un_info info) (un_cp cp).
+
+Lemma subs_paired_paired : forall F g (i : inf) (c : cpt),
+  reports_pending (gs_before g) i c -> subs_paired (sub_ok F g) i c -> paired F g i c.
+Proof.
+  intros F g i c Hr Hs. constructor; [exact Hr|exact Hs].
+Qed.
+
+Section SegPaired.
+  Variable F : list gspec.
+  Variable ex : N -> option ncp -> value -> env -> tex * env.
+  Variable gi : N.
+  Variable g : gspec.
+  Hypothesis H_ex : forall k cpo v e cp info e', ex k cpo v e = (TSub cp info, e') -> sub_ok F g k cp info.
+  Let gr := gs_graph g.
+
+  Lemma enter_paired : forall s e i c log e',
+    enter ex gi g s e = (OInterrupted i c, log, e') -> paired F g i c.
+  Proof.
+    intros s e i c log e' H. apply subs_paired_paired; [eapply enter_interrupt_reports; eauto|].
+    unfold enter in H. fold gr in H.
+    destruct (g_eager gr).
+    - destruct (match ls_next s with [] => ([], e) | _ :: _ => pop_sched gi e end) as [sched e1].
+      eapply (eiterate_interrupt_subs VNil (ifold gr) (igetr gr) (pre_fn g) ex (gs_before g) (gs_after g) (sub_ok F g) H_ex);
+        [|exact H]. simpl. constructor.
+    - eapply (iterate_interrupt_subs VNil (ifold gr) (igetr gr) (pre_fn g) ex (gs_before g) (gs_after g) (sub_ok F g) H_ex); eauto.
+  Qed.
+
+  Lemma seg_fresh_paired : forall x e i c log e',
+    seg_fresh ex gi g x e = (OInterrupted i c, log, e') -> paired F g i c.
+  Proof.
+    intros x e i c log e' H. pose proof H as H0. unfold seg_fresh in H. fold gr in H.
+    destruct (init_chans value gr) as [cs0| |]; try discriminate.
+    destruct (init (ifold gr) (igetr gr) (gs_before g) cs0 (gs0 g) x) as [s|v|i0 c0|err] eqn:Hi;
+      simpl in H; try discriminate.
+    - eapply enter_paired; eauto.
+    - inversion H; subst. apply subs_paired_paired; [eapply seg_fresh_interrupt_reports; eauto|].
+      eapply (init_interrupt_subs VNil (ifold gr) (igetr gr) (pre_fn g) ex (gs_before g) (gs_after g) (sub_ok F g)); eauto.
+  Qed.
+
+  Lemma seg_resumed_paired : forall sm c0 e i c log e',
+    seg_resumed ex gi g sm c0 e = (OInterrupted i c, log, e') -> paired F g i c.
+  Proof. unfold seg_resumed; intros; eapply enter_paired; eauto. Qed.
+End SegPaired.
+
+(* what a node body of the model returns for a nested interrupt belongs together, at every depth *)
+Lemma node_exec_sub_ok : forall d F g k cpo v e cp info e',
+  node_exec d F g k cpo v e = (TSub cp info, e') -> sub_ok F g k cp info.
+Proof.
+  induction d as [|d IH]; intros F g k cpo v e cp info e' H; simpl in H.
+  - destruct (find_node (gs_graph g) k) as [n|]; [|discriminate].
+    destruct (key_input g k cpo v) as [v'| |]; try discriminate.
+    destruct (n_kind n); try discriminate;
+      unfold lambda_exec in H; match type of H with (if ?b then _ else _, _) = _ => destruct b end; discriminate.
+  - destruct (find_node (gs_graph g) k) as [n|] eqn:Hn; [|discriminate].
+    destruct (key_input g k cpo v) as [v'| |]; try discriminate.
+    destruct (n_kind n) as [| |j] eqn:Hk;
+      try (unfold lambda_exec in H; match type of H with (if ?b then _ else _, _) = _ => destruct b end; discriminate).
+    + destruct (nth_error F j) as [sub|] eqn:Hj; [|discriminate].
+      destruct cpo as [[c0]|].
+      * destruct (seg_resumed (node_exec d F sub) (N.of_nat j) sub (sm_of e) c0 e) as [[o l] e1] eqn:Hs.
+        destruct o as [r|i c|x0|]; inversion H; subst. simpl.
+        exists n, j, sub. split; [exact Hn|]. split; [exact Hk|]. split; [exact Hj|]. simpl.
+        eapply (seg_resumed_paired F (node_exec d F sub) (N.of_nat j) sub); [|exact Hs].
+        intros; eapply IH; eauto.
+      * destruct (seg_fresh (node_exec d F sub) (N.of_nat j) sub v' e) as [[o l] e1] eqn:Hs.
+        destruct o as [r|i c|x0|]; inversion H; subst. simpl.
+        exists n, j, sub. split; [exact Hn|]. split; [exact Hk|]. split; [exact Hj|]. simpl.
+        eapply (seg_fresh_paired F (node_exec d F sub) (N.of_nat j) sub); [|exact Hs].
+        intros; eapply IH; eauto.
+Qed.
+
+(* every interrupt of the run of a case: information and written checkpoint belong together at every
+   nesting level *)
+Lemma run_drive_paired : forall (F : list gspec) g0 with_id mods x e cos e' co i c,
+  nth_error F 0 = Some g0 ->
+  run_drive F with_id mods x e = (cos, e') ->
+  In co cos -> co_out co = OInterrupted i c -> paired F g0 i c.
+Proof.
+  intros F g0 with_id mods x e cos e' co i c HF H Hin Ho.
+  destruct F as [|g1 rest]; [discriminate|]. simpl in HF. inversion HF; subst g1.
+  unfold run_drive in H.
+  set (ex := node_exec (List.length (g0 :: rest)) (g0 :: rest) g0) in *.
+  assert (Hex : forall k cpo v e cp info e', ex k cpo v e = (TSub cp info, e') -> sub_ok (g0 :: rest) g0 k cp info)
+    by (intros; eapply node_exec_sub_ok; eauto).
+  eapply (drive_interrupts_from_segments (fun c : cpt => c) (fun c => Some c) (seg_fresh ex 0 g0 x) (seg_resumed ex 0 g0)
+            (tick_of mods) (paired (g0 :: rest) g0)); [| |exact H|exact Hin|exact Ho].
+  - intros; eapply (seg_fresh_paired (g0 :: rest) ex 0 g0 Hex); eauto.
+  - intros; eapply (seg_resumed_paired (g0 :: rest) ex 0 g0 Hex); eauto.
+Qed.
+
 (* ---------- witnesses (non-vacuity), evaluated by the kernel ---------- *)
 (* START -> 2 -> 3 -> END, interrupt-after {2}, interrupt-before {3; 3; 9} (a name given twice, a name
    of no node): the run takes two calls; node 3 executes in the second, the first reported it *)
@@ -136,4 +248,24 @@ Lemma wd_eager_collects_after_node : exists s c rest sched',
 Proof.
   do 4 eexists. split; [vm_compute; reflexivity|]. split; [vm_compute; reflexivity|].
   split; [vm_compute; left; reflexivity|discriminate].
+Qed.
+
+(* a graph node 2 holding START -> 4 -> 5 -> END with interrupt-before {5}: the first call is interrupted
+   inside the nested graph; the nested information is listed under node 2 and reports node 5 *)
+Definition wd_top : gspec :=
+  Build_gspec (Build_graph [Build_node 0 KLambda None [2] [2] [] [];
+                            Build_node 2 (KSub 1%nat) None [3] [3] [] [];
+                            Build_node 3 KLambda None [1] [1] [] []] Pregel false 0%nat) false [] [] [] [] [] [].
+Definition wd_sub : gspec :=
+  Build_gspec (Build_graph [Build_node 0 KLambda None [4] [4] [] [];
+                            Build_node 4 KLambda None [5] [5] [] [];
+                            Build_node 5 KLambda None [1] [1] [] []] Pregel false 0%nat) false [] [] [5] [] [] [].
+
+Lemma wd_nested_run : exists co rest e i c si sc,
+  run_drive [wd_top; wd_sub] true [] wd_x (env0 []) = (co :: rest, e) /\
+  co_out co = OInterrupted i c /\ ii_subs i = [(2, NInfo si)] /\ cp_subs c = [(2, NCP sc)] /\
+  ii_before si = [5] /\ map fst (cp_inputs sc) = [5].
+Proof.
+  do 7 eexists. split; [vm_compute; reflexivity|].
+  split; [reflexivity|]. split; [reflexivity|]. split; [reflexivity|]. split; reflexivity.
 Qed.
